@@ -67,6 +67,8 @@ var ghost struct {
 	ioRestLines string
 	ioEol       bool
 
+	ioKey1, ioKey2 string // what the latest and the one-before-latest (Attr).Key call returned (C07)
+
 	ioKeyed int // 1 once the key of the attribute serializeAttrs is printing has been written (C05)
 
 	ioSeq int // the sources of attributes collectArgs has consulted so far, as decimal digits in call order: 1 context, 2 logger chain, 3 call arguments (C07)
